@@ -74,6 +74,10 @@ fn check_dir(st: &harness::dev::DevState, path: &str, expect: &BTreeSet<String>,
         if let Err(m) = legal_sfn(&e.sfn) {
             v.push(("C16/illegal-short-name".into(), format!("{ctx}: entry {:?} has short name {:?}: {m}", e.name, String::from_utf8_lossy(&e.sfn))));
         }
+        // the case flags belong to the alias: set, they make every reader display the alias in lower case
+        if e.nt & 0x18 != 0 {
+            v.push(("C16/alias-carries-lower-case-flags".into(), format!("{ctx}: entry {:?}: flags byte {:#04x}", e.name, e.nt)));
+        }
         if !shorts.insert(e.sfn) {
             v.push(("C16/duplicate-short-name".into(), format!("{ctx}: short name {:?} used twice (second: {:?})", String::from_utf8_lossy(&e.sfn), e.name)));
         }
@@ -102,6 +106,9 @@ fn population(cfg: &Cfg, dir_path: &str, names: &[String], remove_every: usize, 
         let fs = sess::mount(MemDev::new(st.clone()), cfg, &ctr).map_err(|e| ("C16/machinery/mount".to_string(), format!("{:?}", sess::ek(e))))?;
         let root = fs.root_dir();
         let dir = if dir_path == "/" { root } else { root.create_dir(&dir_path[1..]).map_err(|e| ("C16/machinery/mkdir".to_string(), format!("{:?}", sess::ek(e))))? };
+        // sibling directory that already holds entries with the same prefixes (so the aliases generated there clash
+        // with the ones in the population directory)
+        let side = if dir_path != "/" { fs.root_dir().create_dir("side").ok() } else { None };
         let mut live: BTreeSet<String> = BTreeSet::new();
         let mut folded: BTreeSet<String> = BTreeSet::new();
         let mut created = 0usize;
@@ -119,13 +126,27 @@ fn population(cfg: &Cfg, dir_path: &str, names: &[String], remove_every: usize, 
                 Ok(_) => continue,
                 Err(e) => match sess::ek(e) {
                     harness::model::ErrKind::NotFound => {}
+                    // (resolves to a directory of that name / alias)
+                    harness::model::ErrKind::InvalidInput => continue,
                     k => return Err((format!("C16/lookup-failed/{}", k.name()), format!("{label}: open {name:?} -> {k:?}"))),
                 },
             }
             evals.fetch_add(1, Ordering::Relaxed);
             let n_live = live.len() as u64;
             st.borrow_mut().arm(None, Some(64 * (n_live + 16) * 40 + 20_000));
-            let res = dir.create_file(name).map(|_| ()).map_err(sess::ek);
+            // every entry the library creates gets an alias: most names become files, every 5th a directory, every 7th
+            // is first created in a sibling directory (where it gets an alias of its own) and then moved in under
+            // the same name
+            let res = if i % 7 == 6 && dir_path != "/" {
+                match &side {
+                    Some(sd) => sd.create_file(name).map(|_| ()).and_then(|()| sd.rename(name, &dir, name)).map_err(sess::ek),
+                    None => dir.create_file(name).map(|_| ()).map_err(sess::ek),
+                }
+            } else if i % 5 == 4 {
+                dir.create_dir(name).map(|_| ()).map_err(sess::ek)
+            } else {
+                dir.create_file(name).map(|_| ()).map_err(sess::ek)
+            };
             let hit = st.borrow().budget_hit;
             st.borrow_mut().disarm();
             if hit {
@@ -137,7 +158,21 @@ fn population(cfg: &Cfg, dir_path: &str, names: &[String], remove_every: usize, 
                     folded.insert(f);
                     created += 1;
                 }
-                Err(harness::model::ErrKind::NotEnoughSpace) => break,
+                Err(harness::model::ErrKind::NotEnoughSpace) => {
+                    // admissible only if the independently decoded directory has no room for the entry set and cannot grow
+                    let d = decoder::decode(&st.borrow(), &DecodeOpts { read_content: false, ..Default::default() }).map_err(|e| ("C16/undecodable".to_string(), e))?;
+                    let needed = (name.encode_utf16().count() + 12) / 13 + 1;
+                    let room = d.dir_by_path(dir_path).map(|dd| sess::dir_room(dd, needed));
+                    let fixed_root = dir_path == "/" && d.geo.width != 32;
+                    let can_grow = !fixed_root && d.free > 0;
+                    let makes_dir = i % 5 == 4 && !(i % 7 == 6 && dir_path != "/");
+                    match room {
+                        Some((false, _)) if !can_grow => break,
+                        // a new directory needs a cluster of its own
+                        _ if makes_dir && d.free == 0 => break,
+                        _ => return Err(("C16/create-failed/NotEnoughSpace-with-room-left".into(), format!("{label}: creating {name:?} with {n_live} live entries -> NotEnoughSpace although the directory has room / can grow ({} free clusters)", d.free))),
+                    }
+                }
                 Err(k) => return Err((format!("C16/create-failed/{}", k.name()), format!("{label}: creating {name:?} with {n_live} live entries -> {k:?}"))),
             }
             if remove_every > 0 && created % remove_every == 0 {
@@ -296,6 +331,36 @@ pub fn run(tier: &str) -> i32 {
         ("prefix-collides-hash-ffff", hash_colliders_at(0xFFFF, n.min(if th { 60 } else { 24 }))),
         ("prefix-collides-hash-fffe", hash_colliders_at(0xFFFE, n.min(if th { 60 } else { 34 }))),
         ("prefix-collides-hash-0000", hash_colliders_at(0x0000, n.min(if th { 60 } else { 24 }))),
+        // many rounds of the generator at linear cost: the aliases HCOLLI~1..4 and HChhhh~1..9 for K consecutive hash
+        // values (wrapping past 0xFFFF) are taken by names that ARE those aliases; one more name with that prefix
+        // and the first hash value then needs K + 1 rounds
+        ("many-generator-rounds", {
+            let k: u32 = if th { 150 } else { 30 };
+            let h0: u16 = 0xFFF0;
+            let mut v: Vec<String> = (1..=4).map(|i| format!("HCOLLI~{i}.TXT")).collect();
+            for d in 0..k {
+                let h = h0.wrapping_add(d as u16);
+                v.extend((1..=9).map(|i| format!("HC{h:04X}~{i}.TXT")));
+            }
+            v.extend(hash_colliders_at(h0, 2));
+            v
+        }),
+        // every ASCII character that is legal in a long name, in the base name and in the extension (the characters
+        // that are not legal in short names have to be replaced in the alias), plus a 3-byte character and one whose
+        // low byte is an ASCII letter
+        ("every-legal-ascii-character", {
+            let mut v = Vec::new();
+            for c in (0x20u8..0x7F).map(|b| b as char).chain(['\u{4E2D}', '\u{0141}']) {
+                if !model::name_errors(&c.to_string()).0.is_empty() {
+                    continue;
+                }
+                v.push(c.to_string());
+                v.push(format!("a{c}"));
+                v.push(format!("a.{c}"));
+                v.push(format!("{}.{}", c.to_string().repeat(9), c.to_string().repeat(4)));
+            }
+            v
+        }),
         ("alias-shaped-long-names", (1..=n).map(|i| format!("COLLID~{i}.TXT")).collect()),
         ("alias-shaped-then-colliding", (1..=9).map(|i| format!("COLLID~{i}.TXT")).chain((0..n).map(|i| format!("collide-{i}.txt"))).collect()),
         ("non-ascii-prefix", (0..n).map(|i| format!("ééééééé-{i}.tx")).collect()),
@@ -333,7 +398,7 @@ pub fn run(tier: &str) -> i32 {
     rep.coverage = json!({
         "evaluations": evals.load(Ordering::Relaxed),
         "distinct_nontrivial": jobs.len(),
-        "rule": "all 4680 names over {a,B,.,space,+,é,~,1} of length 1..=4, each alone and (thorough: all; quick: every third) one after another in one cluster-chained directory with removals; collision populations of N names (6-character prefix, 2-character prefix + identical 16-bit hash (an arbitrary value and the boundary values 0xFFFF, 0xFFFE, 0x0000 of the hash range), alias-shaped long names, non-ASCII prefix, dots/spaces) in the fixed root and in a subdirectory, with and without interleaved removals; after every batch every short-name slot is examined in the raw image by the independent decoder; distinct_nontrivial = number of distinct populations/jobs",
+        "rule": "all 4680 names over {a,B,.,space,+,é,~,1} of length 1..=4, each alone and (thorough: all; quick: every third) one after another in one cluster-chained directory with removals; collision populations of N names (6-character prefix, 2-character prefix + identical 16-bit hash (an arbitrary value and the boundary values 0xFFFF, 0xFFFE, 0x0000 of the hash range), alias-shaped long names, K+1 generator rounds forced by pre-taken aliases, every legal ASCII character in base and extension, non-ASCII prefix, dots/spaces); every 5th name is created as a directory, every 7th is created in a sibling directory and moved in in the fixed root and in a subdirectory, with and without interleaved removals; after every batch every short-name slot is examined in the raw image by the independent decoder; distinct_nontrivial = number of distinct populations/jobs",
         "samples": [{"population": "six-char-prefix", "first": "collide-0.txt", "n": n}, {"population": "two-char-prefix-and-hash", "names": hash_colliders(3)}],
         "exhaustive": ncap == 0,
         "jobs_skipped_by_deadline": ncap,
